@@ -965,6 +965,9 @@ def r102(ctx: Ctx) -> RuleReport:
                 continue
             wnode = ast.parse(wsrc, mode='eval').body
             if k not in got:
+                okw_, wv_ = try_fold(wnode)
+                if okw_ and ((k == 'default' and wv_ is None) or (k == 'required' and wv_ is False) or (k == 'action' and wv_ == 'store') or (k == 'nargs' and wv_ is None)):
+                    continue                    # argparse's own default
                 problems.append(f'{k}={wsrc} is gone' + (' (the option now expects a value)' if k == 'action' and 'store_true' in wsrc else ''))
                 continue
             gv, wv = val(f, got[k]), val(f, wnode)
